@@ -790,6 +790,9 @@ func ruleErrChain(c *Ctx) {
 					}
 					verdict, fact := Discharged, ""
 					for _, t := range tests {
+						if t.Chain {
+							continue // judged at the test of the merged error, which is in the list too
+						}
 						errs, nils := errReturnsUnderEdge(h, t.Blk, t.NonNilSucc)
 						if len(errs) == 0 || len(nils) > 0 {
 							verdict, fact = Violated, "the non-nil edge of the error test at "+b.posOf(t.Blk.Instrs[len(t.Blk.Instrs)-1])+" does not always return an error"
@@ -1351,6 +1354,19 @@ func nullProbes(c *Ctx, b *Body) {
 	hasNullCompare := func(f *ssa.Function, recv ssa.Value) bool {
 		found := false
 		allInstrs(f, func(i ssa.Instruction) {
+			// string(compact(recv)) == "null"
+			if bo, ok := i.(*ssa.BinOp); ok && (bo.Op == token.EQL || bo.Op == token.NEQ) {
+				for _, pr := range [][2]ssa.Value{{bo.X, bo.Y}, {bo.Y, bo.X}} {
+					cv, ok1 := pr[0].(*ssa.Convert)
+					_, ok2 := pr[1].(*ssa.Const)
+					if !ok1 || !ok2 || !isByteSlice(cv.X.Type()) {
+						continue
+					}
+					if cc, ok := cv.X.(*ssa.Call); ok && len(cc.Call.Args) > 0 && cc.Call.Args[0] == recv {
+						found = true
+					}
+				}
+			}
 			call, ok := i.(*ssa.Call)
 			if !ok {
 				return
